@@ -3,7 +3,7 @@
     Spec/C01Spec.v, proofs in Proofs/C01_*.v. *)
 From InvokeVerif Require Import Corr.C01Corr Proofs.C01_witness Proofs.C01_steps Proofs.C01_occ
      Proofs.C01_roundtrip Proofs.C01_final Model.SigToCtx Proofs.C01_sig_bridge.
-From InvokeVerif Require Proofs.C01_wide_final.
+From InvokeVerif Require Proofs.C01_wide_final Proofs.C01_wide_final2 Proofs.C01_inv Proofs.C01_sig_bridge_w.
 
 (** The round trip, proved part.  [simple_guard cs ic inv]: the parser is
     well-formed ([parser_ok]: named tasks, distinct names/aliases), the initial
@@ -71,6 +71,39 @@ Example C01_wide_guard_inhabited :
                      ("clean", ABool false); ("log", AStr "f"); ("jobs", AInt 4)]);
      (Some "test", [("exclude", AList ["a"; "b"]); ("fast", ABool true)])].
 Proof. exact C01_wide_final.wide_example. Qed.
+
+(** The widest proved fragment: as above plus clusters -- one "-abc" token of
+    >= 2 short-named members, each a bare boolean or a stacked counter, the last
+    one possibly a non-optional value flag whose value is the next token
+    ("-vvj 8").  It strictly extends the previous theorem. *)
+Theorem C01_spell_roundtrip_partial_widest : forall cs ic inv,
+  parser_ok cs = true -> C01_wide_final2.guard_wide_x cs ic inv = true ->
+  exists r, parser_parse cs (Some ic) false (spell cs inv) = Ok r /\
+            hd_error (pr_ctxs r) = Some (init_ctx ic) /\
+            map obs_of_ctx (tl (pr_ctxs r)) = expected cs inv /\
+            pr_unparsed r = [] /\ pr_remainder r = "".
+Proof. exact C01_wide_final2.spell_roundtrip_wide_x. Qed.
+
+Example C01_widest_guard_inhabited :
+  C01_wide_final2.guard_wide_x [C01_wide_final.ex_build; C01_wide_final.ex_test] core_ctx
+                               C01_wide_final2.ex_inv_x = true /\
+  spell [C01_wide_final.ex_build; C01_wide_final.ex_test] C01_wide_final2.ex_inv_x =
+    ["build"; "thing"; "-vvj"; "8"; "test"; "-fe"; "a"; "--exclude=b"] /\
+  expected [C01_wide_final.ex_build; C01_wide_final.ex_test] C01_wide_final2.ex_inv_x =
+    [(Some "build", [("name", AStr "thing"); ("verbose", AInt 2); ("out_dir", AStr "x");
+                     ("clean", ABool true); ("log", ANone); ("jobs", AInt 8)]);
+     (Some "test", [("exclude", AList ["a"; "b"]); ("fast", ABool true)])].
+Proof. exact C01_wide_final2.wide_x_example. Qed.
+
+(** ... and its per-task guard holds for contexts built from well-formed
+    signatures that MAY have required positionals and counters. *)
+Theorem C01_wf_ctxs_of_wf_sigs_wide_partial : forall ts,
+  forallb C01_sig_bridge_w.task_ok_w ts = true ->
+  exists cs, ctxs_of_tasks ts = Ok cs /\
+             map cx_name cs = map (fun t => Some (t_name t)) ts /\
+             map cx_aliases cs = map t_aliases ts /\
+             forallb C01_inv.guard_w cs = true.
+Proof. exact C01_sig_bridge_w.wf_ctxs_of_wf_sigs_w. Qed.
 
 (** The same in the flagship shape: on the fragment, the model satisfies the
     executable specification (with the real core context as initial context). *)
